@@ -131,7 +131,7 @@ pub fn eval_from_bytes_bitcoin(bytes: &[u8], version_id: u8) -> EvaluatedScript 
     // For OP_RETURN and provably unspendable scripts there is no point in parsing the address
     if script.is_op_return() {
         // OP_RETURN 13 <data>
-        let data = String::from_utf8(script.to_bytes().into_iter().skip(2).collect());
+        let data = String::from_utf8(op_return_data(bytes).to_vec());
         let pattern = ScriptPattern::OpReturn(data.unwrap_or_else(|_| String::from("")));
         return EvaluatedScript::new(None, pattern);
     } else if is_provable_unspendable(script) {
@@ -169,6 +169,30 @@ pub fn eval_from_bytes_bitcoin(bytes: &[u8], version_id: u8) -> EvaluatedScript 
         EvaluatedScript::new(address, ScriptPattern::Pay2MultiSig)
     } else {
         EvaluatedScript::new(address, ScriptPattern::NotRecognised)
+    }
+}
+
+/// Returns the payload of an OP_RETURN script.
+/// For a single data push (direct or OP_PUSHDATA1/2/4) this is exactly the pushed data,
+/// otherwise everything after the first two bytes.
+fn op_return_data(bytes: &[u8]) -> &[u8] {
+    let payload_start = match bytes.get(1) {
+        Some(0x4c) => Some((3, bytes.get(2).map(|n| *n as usize))),
+        Some(0x4d) => Some((4, bytes.get(2..4).map(|n| u16::from_le_bytes([n[0], n[1]]) as usize))),
+        Some(0x4e) => Some((
+            6,
+            bytes
+                .get(2..6)
+                .map(|n| u32::from_le_bytes([n[0], n[1], n[2], n[3]]) as usize),
+        )),
+        _ => None,
+    };
+    match payload_start {
+        // OP_PUSHDATA1/2/4 whose declared length covers exactly the rest of the script
+        Some((start, Some(len))) if bytes.len() >= start && bytes.len() - start == len => {
+            &bytes[start..]
+        }
+        _ => bytes.get(2..).unwrap_or(&[]),
     }
 }
 
